@@ -337,7 +337,17 @@ def bounded_integer_containers(which):
         gain = float(rng.choice([0.05, 1.0, 4.0]))
         d = det.Detector(dark_current=float(rng.choice([0.0, 10.0])), read_noise=rn, bias=bias, fwc=fwc, conversion_gain=gain, bits=bits, exposure_time=1.0)
         img = rng.random((int(rng.integers(1, 9)), int(rng.integers(1, 9)))) * float(rng.choice([0.0, 1.0, 1e3, 1e7, 1e12]))
+        # the aerial image in every memory layout a caller may hold it in
+        lay = int(rng.integers(0, 3))
+        img = img if lay == 0 else (np.asfortranarray(img) if lay == 1 else np.ascontiguousarray(img.T).T)
         out = d.expose(img)
+        # a two-level scene (dark / 1e4 electrons, no read noise): whatever the layout, bright pixels read bright and dark pixels dark
+        quiet = det.Detector(dark_current=0.0, read_noise=0.0, bias=0.0, fwc=1e9, conversion_gain=1.0, bits=16, exposure_time=1.0)
+        B = rng.random(img.shape) < 0.5
+        scene = B * 1e4
+        scene = scene if lay == 0 else (np.asfortranarray(scene) if lay == 1 else np.ascontiguousarray(scene.T).T)
+        got = quiet.expose(scene)
+        check('bright-pixels-read-bright-in-every-memory-layout', bool(got.shape == B.shape and ((got > 5000) == B).all()))
         check('unsigned-container-wide-enough', bool(out.dtype.kind == 'u' and np.iinfo(out.dtype).max >= 2 ** bits - 1))
         check('DN-in-range-on-real-containers', bool(out.min() >= 0 and int(out.max()) <= 2 ** bits - 1))
         check('shape', out.shape == img.shape)
